@@ -40,7 +40,7 @@ NEEDED = ["err:IndexError", "err:ValueError", "err:none", "hz:none", "hz:clamp",
 TIERS = {
     "quick": {"cfgs": [("cases", "MemSlice_quick")], "consts": 100, "tuple_forms": 1500, "min_cases": 20000},
     "thorough": {"cfgs": [("cases", "MemSlice_thorough"), ("cases", "MemSlice_chain3")],
-                 "consts": 1500, "tuple_forms": 20000, "min_cases": 200000},
+                 "consts": 1500, "tuple_forms": 20000, "min_cases": 150000},
 }
 
 CRASH_PROBE = """# cython: language_level=3
